@@ -16,7 +16,7 @@ echo "demo pristine exit=$demo_clean mutated exit=$demo_mut baseline: $base"
 # (SCRATCH=1: against a scratch copy through VERIF_REPO instead, for when a background run is using /repo)
 cd /verif && rm -rf replays/$pid
 if [ "${SCRATCH:-0}" = 1 ]; then
-  d=$(mktemp -d /tmp/mutrepo.XXXXXX); cp -r /repo/elementpath $d/
+  d=$(mktemp -d /tmp/mutrepo.XXXXXX); git -C /repo archive HEAD elementpath | tar -x -C $d
   (cd $d && patch -s -p1 < $m/patch.diff) || { echo "patch does not apply to the copy"; rm -rf $d; exit 2; }
   VERIF_REPO=$d timeout 1200 ./check $pid --no-evidence "$@" > /tmp/chk_$pid-$k.out 2>&1; code=$?
   rm -rf $d
